@@ -14,23 +14,41 @@
    (cancel only / cancel and act).                                                                    *)
 EXTENDS Integers, Sequences, FiniteSets, TLC
 
-\* ------------------------------------------------------------------ the content world
-Items == {"alice", "bob", "a1", "a2", "n1", "n2", "n3", "nf", "fo"}
-Kind == [i \in Items |-> CASE i \in {"alice", "bob"} -> "actor" [] i \in {"a1", "a2"} -> "activity"
-                            [] i \in {"n1", "n2", "n3"} -> "post" [] OTHER -> "failure"]
-Parent == [i \in Items |-> CASE i = "n2" -> "n1" [] i = "n3" -> "n2" [] OTHER -> "none"]
-Kids == [i \in Items |-> CASE i = "alice" -> <<"a1", "a2">> [] i = "n1" -> <<"n2", "nf">> [] i = "n2" -> <<"n3">> [] OTHER -> <<>>]
-Creators == [i \in Items |-> CASE i \in {"n1", "n2"} -> <<"alice">> [] i = "n3" -> <<"alice", "bob">> [] OTHER -> <<>>]
-Recipients == [i \in Items |-> <<>>]
-ActorOf == [i \in Items |-> IF Kind[i] = "activity" THEN "alice" ELSE "none"]
-TargetOf == [i \in Items |-> CASE i = "a1" -> "n1" [] i = "a2" -> "n3" [] OTHER -> "none"]
-NLinks == [i \in Items |-> CASE i = "n1" -> 2 [] i = "alice" -> 1 [] OTHER -> 0]
+\* ------------------------------------------------------------------ the content worlds
+(* World "w1": alice (outbox a1 = Create n1, a2 = Announce n3; one bio link; picture), bob (empty outbox),
+               thread n1 <- n2 <- n3 (n3 by alice and bob, with media), nf a reply that fails to load.
+   World "w2": carol (outbox of two pages c1..c5 = Create m1..m5; picture and banner), grp (a group),
+               m1 addressed to grp with one link, m2 with four ancestors q1 <- q2 <- q3 <- q4 (more than one
+               preload step) and media, m3 whose parent fails to load (bp), m4 with the reply m5.
+   "fo" is the failure page shown for an address that cannot be fetched.                              *)
+CONSTANT World
+Items == IF World = "w1" THEN {"alice", "bob", "a1", "a2", "n1", "n2", "n3", "nf", "fo"}
+         ELSE {"carol", "grp", "c1", "c2", "c3", "c4", "c5", "m1", "m2", "m3", "m4", "m5", "q1", "q2", "q3", "q4", "bp", "fo"}
+Kind == [i \in Items |-> CASE i \in {"alice", "bob", "carol", "grp"} -> "actor"
+                            [] i \in {"a1", "a2", "c1", "c2", "c3", "c4", "c5"} -> "activity"
+                            [] i \in {"n1", "n2", "n3", "m1", "m2", "m3", "m4", "m5", "q1", "q2", "q3", "q4"} -> "post"
+                            [] OTHER -> "failure"]
+Parent == [i \in Items |-> CASE i = "n2" -> "n1" [] i = "n3" -> "n2"
+                              [] i = "m2" -> "q1" [] i = "q1" -> "q2" [] i = "q2" -> "q3" [] i = "q3" -> "q4"
+                              [] i = "m3" -> "bp" [] i = "m5" -> "m4" [] OTHER -> "none"]
+Kids == [i \in Items |-> CASE i = "alice" -> <<"a1", "a2">> [] i = "n1" -> <<"n2", "nf">> [] i = "n2" -> <<"n3">>
+                            [] i = "carol" -> <<"c1", "c2", "c3", "c4", "c5">> [] i = "m4" -> <<"m5">> [] OTHER -> <<>>]
+Creators == [i \in Items |-> CASE i \in {"n1", "n2"} -> <<"alice">> [] i = "n3" -> <<"alice", "bob">>
+                                [] i \in {"m1", "m2", "m3", "m4", "m5", "q1", "q2", "q3", "q4"} -> <<"carol">> [] OTHER -> <<>>]
+Recipients == [i \in Items |-> IF i = "m1" THEN <<"grp">> ELSE <<>>]
+ActorOf == [i \in Items |-> IF Kind[i] # "activity" THEN "none" ELSE IF World = "w1" THEN "alice" ELSE "carol"]
+TargetOf == [i \in Items |-> CASE i = "a1" -> "n1" [] i = "a2" -> "n3" [] i = "c1" -> "m1" [] i = "c2" -> "m2"
+                                [] i = "c3" -> "m3" [] i = "c4" -> "m4" [] i = "c5" -> "m5" [] OTHER -> "none"]
+NLinks == [i \in Items |-> CASE i = "n1" -> 2 [] i = "alice" -> 1 [] i = "m1" -> 1 [] OTHER -> 0]
 (* what opening link k of item i internally yields *)
-LinkTarget == [i \in Items |-> [k \in 1..2 |-> CASE i = "n1" /\ k = 1 -> "n3" [] i = "alice" /\ k = 1 -> "n3" [] OTHER -> "fo"]]
-HasMedia == [i \in Items |-> i = "n3"]
-HasPic == [i \in Items |-> i = "alice"]
-HasBanner == [i \in Items |-> FALSE]
-FeedF == <<"a1", "a2">>
+LinkTarget == [i \in Items |-> [k \in 1..2 |-> CASE i = "n1" /\ k = 1 -> "n3" [] i = "alice" /\ k = 1 -> "n3"
+                                                   [] i = "m1" /\ k = 1 -> "q4" [] OTHER -> "fo"]]
+HasMedia == [i \in Items |-> i \in {"n3", "m2"}]
+HasPic == [i \in Items |-> i \in {"alice", "carol"}]
+HasBanner == [i \in Items |-> i = "carol"]
+FeedF == IF World = "w1" THEN <<"a1", "a2">> ELSE <<"c1", "c2", "c3", "c4", "c5">>
+OpenActor == IF World = "w1" THEN "alice" ELSE "carol"     \* what ":open <actor address>" / start_a shows
+OpenPost  == IF World = "w1" THEN "n2" ELSE "m2"
 
 Base(i) == IF Kind[i] = "activity" THEN TargetOf[i] ELSE i
 RECURSIVE Anc(_)
@@ -59,7 +77,7 @@ OutHook(st, kind, item, n) == [st |-> st, hook |-> [k |-> kind, item |-> item, n
 
 \* ------------------------------------------------------------------ keys
 Digits == {"0", "1", "2", "3", "9"}
-CmdToks == {"open_alice", "open_n2", "open_bad", "feed_f", "feed_u", "bad_cmd"}
+CmdToks == {"open_a", "open_p", "open_bad", "feed_f", "feed_u", "bad_cmd"}
 CharKeys == {"j", "k", "g", "h", "l", "sp", "c", "r", "a", "o", "p", "b", "x", "hi", "dot"} \cup Digits \cup {"colon"}   \* "x": an unbound ASCII key, "hi": a byte >= 0x80
 Keys == CharKeys \cup {"enter", "esc", "bs"} \cup CmdToks
 
@@ -87,12 +105,12 @@ Nav(st, k) ==
 RunCommand(st) ==
     LET n == Normal(st) IN
     IF Len(st.buf) = 1 THEN
-        CASE st.buf[1] = "open_alice" -> Push(n, ItemPage("alice"))
-          [] st.buf[1] = "open_n2"    -> Push(n, ItemPage("n2"))
+        CASE st.buf[1] = "open_a"     -> Push(n, ItemPage(OpenActor))
+          [] st.buf[1] = "open_p"     -> Push(n, ItemPage(OpenPost))
           [] st.buf[1] = "open_bad"   -> Push(n, ItemPage("fo"))
           [] st.buf[1] = "feed_f"     -> Push(n, ListPage(FeedF))
           [] OTHER                    -> n          \* unknown feed, unknown command, no space: a problem frame at most
-    ELSE IF Len(st.buf) > 1 /\ st.buf[1] \in {"open_alice", "open_n2", "open_bad"} THEN Push(n, ItemPage("fo"))   \* text after the URL
+    ELSE IF Len(st.buf) > 1 /\ st.buf[1] \in {"open_a", "open_p", "open_bad"} THEN Push(n, ItemPage("fo"))   \* text after the URL
     ELSE n
 
 (* the dispatcher, in the order of ui.Update; keys are ignored while loading, which a settled UI never is *)
@@ -121,7 +139,7 @@ KeyNext(st, k) ==
 (* the hook process ending while still "opening" returns to normal *)
 HookExit(st) == IF st.mode = "opening" THEN Normal(st) ELSE st
 
-Init0(o) == [mode |-> "normal", buf |-> <<>>, pages |-> <<ItemPage(o)>>, at |-> 1]
+Init0(o) == [mode |-> "normal", buf |-> <<>>, pages |-> <<ItemPage(IF o = "a" THEN OpenActor ELSE OpenPost)>>, at |-> 1]
 
 \* ------------------------------------------------------------------ well-formedness of the reference
 StateOK(st) ==
